@@ -515,6 +515,12 @@ func (root *Root) replaceArgVars(vars map[string]interface{}, v interface{}, at 
 			if _, has := et.values.dict[string(tv)]; !has {
 				ea = append(ea, resWarnp(nil, "%s is not a valid enum value in %s", tv, et.N))
 			}
+		} else if ic, _ := at.(InCoercer); ic != nil {
+			// Not an enum, let the type decide whether a symbol is
+			// acceptable.
+			if val, err = ic.CoerceIn(val); err != nil {
+				ea = append(ea, resWarnp(nil, "%s", err))
+			}
 		}
 	default:
 		if ic, _ := at.(InCoercer); ic != nil { // validated in SDL validation
